@@ -191,6 +191,49 @@ func runC17(c *Ctx) {
 		}
 	}
 
+	// Decode dispatches through the Decoder table for every type id
+	if df := c.P.Func("diam/datatype", "Decode"); df != nil {
+		key := "datatype.Decode:dispatch-through-Decoder"
+		good, why := false, "datatype.Decode does not select the decoder by a lookup of its type-id argument in datatype.Decoder: a type present in the exported tables can still be undecodable"
+		flow.Instrs(df, func(in ssa.Instruction) {
+			call, ok := in.(*ssa.Call)
+			if !ok || call.Call.IsInvoke() || flow.StaticCallee(call) != nil {
+				return
+			}
+			ex, ok := call.Call.Value.(*ssa.Extract)
+			if !ok || ex.Index != 0 {
+				return
+			}
+			lk, ok := ex.Tuple.(*ssa.Lookup)
+			if !ok || !lk.CommaOk {
+				return
+			}
+			gl := loadedGlobal(lk.X)
+			if gl == nil || gl.Name() != "Decoder" || flow.Peel(lk.Index) != ssa.Value(df.Params[0]) {
+				return
+			}
+			if len(call.Call.Args) != 1 || call.Call.Args[0] != ssa.Value(df.Params[1]) {
+				why = "datatype.Decode does not hand its input bytes unchanged to the selected decoder"
+				return
+			}
+			// guarded only by the lookup's ok
+			gs := flow.Guards(call)
+			if len(gs) != 1 {
+				why = "the decoder call in datatype.Decode is guarded by more than the table lookup's ok"
+				return
+			}
+			cond, neg := flow.Cond(gs[0].If.Cond, gs[0].Taken)
+			if e2, ok := cond.(*ssa.Extract); !ok || e2.Tuple != ssa.Value(lk) || e2.Index != 1 || neg {
+				why = "the decoder call in datatype.Decode is not on the lookup's ok edge"
+				return
+			}
+			good = true
+		})
+		r.Check(good, "R1", key, c.fpos(df), "Decode(t, b) = Decoder[t](b) on the ok edge of the map lookup", why)
+	} else {
+		r.Undecided("R1", "role:datatype.Decode", "-", "datatype.Decode not found")
+	}
+
 	// ---- R2 ----
 	xmls, errs := c.dictXML()
 	for _, e := range errs {
